@@ -94,8 +94,11 @@ pub fn run(o: &Opts, deck: &str) -> String {
                     rescoring = Some(dumped.iter().map(|d| d.0.clone()).collect());
                 }
                 for info in infos {
-                    let cf = p.counterfactual(info);
-                    updates.push(cf);
+                    let key = bkey(info.node().bucket());
+                    match catch(|| p.counterfactual(info)) {
+                        Some(cf) => updates.push(cf),
+                        None => out.line(&format!("cfpanic {} {} | P", ntrees, key)),
+                    }
                 }
             }
             let mut p = prof.write().unwrap();
@@ -159,8 +162,17 @@ pub fn run(o: &Opts, deck: &str) -> String {
             let sample: Vec<String> = all.iter().filter(|n| n.history().len() > 16 && n.player() == profile.walker() && n.children().len() > 0).take(4).map(|n| format!("{} h={}", n.bucket(), n.history().iter().map(|e| edge_tok(e)).collect::<Vec<_>>().join(""))).collect();
             eprintln!("deep_es_tree: {} nodes, max depth {}, walker nodes deeper than 16: {}, colliding buckets {} :: {:?}", all.len(), maxd, deepw, coll, sample);
         }
+        // does some bucket hold two of the traverser's decision nodes?  (counted on the tree itself, not on what the
+        // partition reports)
+        let crowded = {
+            let mut seen: std::collections::HashMap<String, usize> = Default::default();
+            for n in tree.all().iter().filter(|n| n.player() == profile.walker() && !n.children().is_empty()) {
+                *seen.entry(bkey(n.bucket())).or_default() += 1;
+            }
+            seen.values().any(|c| *c >= 2)
+        };
         let infos: Vec<Info> = Vec::<Info>::from(Partition::from(tree));
-        if !infos.iter().any(|i| i.roots().len() >= 2) {
+        if !crowded {
             continue;
         }
         multi += 1;
